@@ -29,7 +29,8 @@ PerPoll(k) == k \in {"eop", "atrait_eop"}
 \* from a nested helper function that has that name)
 Namings == {"default", "short", "custom", "default_f", "short_f"}
 \* closing: a value with an escaped closing brace and no opening one ("limit 100}}" means "limit 100}")
-PropKinds == {"none", "literal", "format", "escaped", "both", "closing"}
+\* recording: a format argument whose Display implementation itself records an event through the local parent
+PropKinds == {"none", "literal", "format", "escaped", "both", "closing", "recording"}
 
 \* meaning of a body: <<effects, outcome>>; statement i logs with its position
 RECURSIVE Run(_, _, _)
